@@ -8,6 +8,7 @@
 CHECKS = {
     "C01": {
         "parts": [
+            {"test": "TestC01Enum", "rapid": False, "quick": 0, "thorough": 0, "shards": 16, "quick_shards": 4},
             {"test": "TestC01", "quick": 60000, "thorough": 300000, "shards": 16, "quick_shards": 2},
         ],
         "assumptions": [
